@@ -377,3 +377,20 @@ where
 
     Ok(())
 }
+
+/// Verification hook (only compiled with `--cfg radicle_verif`): lets the conformance harness
+/// call the private [`cache_cobs`] with the reference updates of a fetch it simulated.
+#[cfg(radicle_verif)]
+pub fn verif_cache_cobs<S, C>(
+    rid: &RepoId,
+    refs: &[RefUpdate],
+    storage: &S,
+    cache: &mut C,
+) -> Result<(), error::Cache>
+where
+    S: ReadRepository + cob::Store<Namespace = NodeId>,
+    C: cob::cache::Update<cob::issue::Issue> + cob::cache::Update<cob::patch::Patch>,
+    C: cob::cache::Remove<cob::issue::Issue> + cob::cache::Remove<cob::patch::Patch>,
+{
+    cache_cobs(rid, refs, storage, cache)
+}
